@@ -282,6 +282,10 @@ def hostile(exe, run, stats):
     for extra in (8 * 1024 * 1024 + 257, 2 ** 24, 2 ** 31, 2 ** 32 - 1):
         hdr = bytes([0xF0]) + max(0, extra - 65805).to_bytes(4, "big") + b"\x01"
         cases.append(("tcp", "declared-length-%d" % extra, hdr + bytes(64), None))
+    # the largest values of the 32-bit field itself: field + 65805 does not fit 32 bits
+    for field in (0xFFFEFEF2, 0xFFFEFEF3, 0xFFFEFEF4, 0xFFFF0000, 0xFFFFFFFE, 0xFFFFFFFF):
+        hdr = bytes([0xF0]) + field.to_bytes(4, "big") + b"\x01"
+        cases.append(("tcp", "declared-length-%d" % (field + 65805), hdr + bytes(64), None))
     for n in (159, 160, 161, 300, 4096):
         cases.append(("ws", "handshake-line-%d" % n, b"GET /" + b"a" * n, None))
         cases.append(("ws", "handshake-header-line-%d" % n,
